@@ -18,7 +18,7 @@ DEFINITE = ('postcondition not satisfied', 'precondition not satisfied', 'assert
             'loop invariant', 'decreases not satisfied', 'failed this postcondition',
             'could not prove termination', 'recommendation not met', 'cannot show invariant holds',
             'invariant not satisfied at end of loop body', 'invariant not satisfied before loop',
-            'unreachable', 'panic', 'requires not satisfied', 'simplifies to false')
+            'unreachable', 'panic', 'requires not satisfied', 'simplifies to false', 'precondition not met')
 UNDECIDED_MARKS = ('resource limit', 'rlimit', 'timed out', 'timeout', 'internal error', 'ICE', 'panicked at')
 
 
